@@ -1,7 +1,12 @@
 // C20.f: Polygons::_getHullIndices (src/Polygon/Polygons.cpp): convex hull of a point set by gift wrapping,
 // used by Polygons::createFromDb / Db::addSelectionFromDbByConvexHull / db_selhull.
 // Input: VF_N points on the integer grid in general position (no three collinear; in particular pairwise distinct).
-// Checked with exact integer cross products:
+// One coordinate of every point (the abscissa, or the ordinate when VF_SWAP) takes concrete small integer values -
+// every arrangement of the family chosen by VF_XMODE is explored - the other coordinate is an arbitrary grid value:
+// every cross product of the function is then linear in the unknowns, which is what lets the solver decide which
+// paths of the wrapping loop exist (with both coordinates unknown it cannot, and the exploration does not end).
+// The kernel is explored path by path (registry symex no_merge, pass pipeline without if-conversion).
+// Checked with exact cross products:
 //   - the result is a closed ring (last index == first), of 3..VF_N distinct valid point ranks;
 //   - every input point lies inside or on the ring: it is on the same side (or on the line) of every edge;
 //   - the wrapping loop terminates and never writes beyond its index array (engine obligations).
@@ -12,6 +17,15 @@
 #endif
 #ifndef VF_G
 #define VF_G 16
+#endif
+#ifndef VF_XMODE
+#define VF_XMODE 1
+#endif
+#ifndef VF_XB
+#define VF_XB 4
+#endif
+#ifndef VF_SWAP
+#define VF_SWAP 0
 #endif
 #define N VF_N
 
@@ -27,20 +41,53 @@ static double pickd(const double* a, int idx) // a[idx] for a symbolic in-range 
   return r;
 }
 
+// an arbitrary integer of [lo, hi] that is CONCRETE on every explored path (one path per value)
+static int pick_concrete(int d, int lo, int hi)
+{
+  int r = lo;
+  for (int v = lo; v <= hi; v++)
+    if (d == v) r = v;
+  return r;
+}
+
 extern "C" void k_hull()
 {
   double xs[N], ys[N];
   VectorDouble x(N), y(N);
-#ifdef VF_XS
-  const double xfix[N] = {VF_XS};
+  // ---- all inputs drawn up front
+  double free_[N];
+  int fixed_[N];
+  int draw_[N];
+  for (int i = 0; i < N; i++) free_[i] = vf_grid_double(VF_G);
+  // (drawn before the first path split: every path shares the same input variables)
+#if VF_XMODE == 1
+  for (int k = 0; k < N; k++) draw_[k] = vf_range(0, N - 1 - k);
+#else
+  for (int k = 0; k < N; k++) draw_[k] = vf_range(0, VF_XB - 1);
+#endif
+#if VF_XMODE == 1
+  // any permutation of 0..N-1 (Lehmer code)
+  int pool[N];
+  for (int i = 0; i < N; i++) pool[i] = i;
+  for (int k = 0; k < N; k++)
+  {
+    int c = pick_concrete(draw_[k], 0, N - 1 - k);
+    fixed_[k] = pool[c];
+    for (int m = c; m + 1 < N - k; m++) pool[m] = pool[m + 1];
+  }
+#else
+  // any tuple over 0..VF_XB-1 (ties included; three equal values are excluded by the general position)
+  for (int k = 0; k < N; k++) fixed_[k] = pick_concrete(draw_[k], 0, VF_XB - 1);
 #endif
   for (int i = 0; i < N; i++)
   {
-    xs[i] = vf_grid_double(VF_G);
-#ifdef VF_XS
-    xs[i] = xfix[i]; // abscissae fixed per kernel: every cross product is then linear in the symbolic ordinates
+#if VF_SWAP
+    xs[i] = free_[i];
+    ys[i] = fixed_[i];
+#else
+    xs[i] = fixed_[i];
+    ys[i] = free_[i];
 #endif
-    ys[i] = vf_grid_double(VF_G);
     x[i] = xs[i];
     y[i] = ys[i];
   }
